@@ -10,7 +10,8 @@
    What is generated from the source: the extension table (Gen/C13_tables.v).
    What is NOT C13's subject and therefore only modelled for a restricted
    command grammar: argparse (extract_incs: -I v, -Iv, -isystem v, and the
-   options of the common parser that take a value). *)
+   options of the common parser that take a value; a missing value stops the
+   parse with a warning and keeps what was parsed so far). *)
 From Coq Require Import Bool Arith Ascii String List.
 From CBI Require Import Lib.Data Lib.Res Gen.C13_tables Model.C13p Model.C13fs.
 Import ListNotations.
@@ -31,7 +32,8 @@ Inductive warn :=
 
 (* ---- is_supported ---- *)
 Definition extensions : list str := map list_of_string source_extensions.
-Definition is_source_file (f : str) : bool := existsb (str_eqb (suffix f)) extensions.
+(* extension = os.path.splitext(filename)[1] *)
+Definition is_source_file (f : str) : bool := existsb (str_eqb (splitext_ext f)) extensions.
 Definition is_supported (file : str) (argv : list str) : bool :=
   match argv with [] => false | _ => is_source_file file end.
 
@@ -52,26 +54,39 @@ Definition starts_dash (v : str) : bool :=
 Definition is_prefix2 (a b : ascii) (x : str) : option str :=
   match x with c :: d :: r => if Ascii.eqb a c && Ascii.eqb b d then Some r else None | _ => None end.
 
-Fixpoint extract_incs (argv : list str) : res (list str) :=
+(* parse_args catches argparse.ArgumentError (a value is missing), warns, and keeps
+   what was parsed before the malformed argument; -O takes an OPTIONAL value.
+   -I values and -isystem values are collected in two lists (each in command-line
+   order); include_paths = the -I list followed by the -isystem list. *)
+Fixpoint extract_pair (argv : list str) : list str * list str :=
   match argv with
-  | [] => Ok []
+  | [] => ([], [])
   | a :: r =>
-      if str_eqb a (s "-I") || str_eqb a (s "-isystem") then
+      if str_eqb a (s "-I") then
         match r with
-        | v :: r' => if starts_dash v then Err "ArgumentError"%string
-                     else rmap (cons v) (extract_incs r')
-        | [] => Err "ArgumentError"%string
+        | v :: r' => if starts_dash v then ([], [])
+                     else let (u, y) := extract_pair r' in (v :: u, y)
+        | [] => ([], [])
         end
-      else if str_eqb a (s "-D") || str_eqb a (s "-include") || str_eqb a (s "-O") || str_eqb a (s "-o") then
+      else if str_eqb a (s "-isystem") then
         match r with
-        | v :: r' => if starts_dash v then Err "ArgumentError"%string else extract_incs r'
-        | [] => Err "ArgumentError"%string
+        | v :: r' => if starts_dash v then ([], [])
+                     else let (u, y) := extract_pair r' in (u, v :: y)
+        | [] => ([], [])
+        end
+      else if str_eqb a (s "-D") || str_eqb a (s "-include") || str_eqb a (s "-o") then
+        match r with
+        | v :: r' => if starts_dash v then ([], []) else extract_pair r'
+        | [] => ([], [])
         end
       else match is_prefix2 "-" "I" a with
-           | Some v => rmap (cons v) (extract_incs r)
-           | None => extract_incs r
+           | Some v => let (u, y) := extract_pair r in (v :: u, y)
+           | None => extract_pair r
            end
   end.
+
+Definition extract_incs (argv : list str) : list str :=
+  let (u, y) := extract_pair argv in u ++ y.
 
 (* ---- one iteration of the loop `for command in db` ---- *)
 Section Load.
@@ -88,11 +103,7 @@ Definition do_entry (directory : option str) (file : str) (argv : list str)
     let fdir := filedir cwd rootdir directory in
     let path := file_path cwd fdir file in
     if negb (os_path_exists fs cwdloc path) then Ok ([], [WMissing path])
-    else
-      match extract_incs (tl argv) with
-      | Err e => Err e
-      | Ok incs => Ok ([ {| o_file := path; o_incs := map (inc_path cwd fdir) incs |} ], [])
-      end.
+    else Ok ([ {| o_file := path; o_incs := map (inc_path cwd fdir) (extract_incs (tl argv)) |} ], []).
 
 Fixpoint loop (es : list (option str * str * list str)) : res (list out_entry * list warn) :=
   match es with
